@@ -4,6 +4,7 @@ import Driver.OpsCrypto
 import Driver.OpsBf3
 import Driver.OpsText
 import Driver.OpsBec2
+import Driver.OpsModes
 /-!
 Line-protocol driver of the executable model: one operation per input line,
 one canonical result line per operation.
@@ -40,7 +41,7 @@ def dispatch (line : String) : String :=
     | "crcstep" => opCrcStep args
     | "crcrow" => opCrcRow args
     | _ =>
-      match (cryptoOps ++ bf3Ops ++ textOps ++ bec2Ops).find? (·.1 == op) with
+      match (cryptoOps ++ bf3Ops ++ textOps ++ bec2Ops ++ modeOps).find? (·.1 == op) with
       | some (_, f) => f args
       | none => "bad-op"
 
